@@ -8,15 +8,16 @@ from .. import refunify as R
 from ..engine import Violation
 from ..driver import ScenarioEnd
 
-ANCHORS = UC.ANCHORS + ['get_ground_term', 'is_ground_variable', 'replace_variables']
-WITNESSES = {'all': ['alias-chain', 'realias', 'success']}
+ANCHORS = UC.ANCHORS + ['get_ground_term', 'is_ground_variable', 'replace_variables', 'next_solution']
+WITNESSES = {'all': ['alias-chain', 'realias', 'success', 'program', 'program-has-answers']}
 OPTS = {'quick': {'selfcheck_mod': 60, 'budget_s': 240}, 'thorough': {'selfcheck_mod': 1500, 'budget_s': 2400}}
 STEP_LIMIT = 60_000
 NATIVE_TIMEOUT = 5.0
 BOUNDS = {
     'quick': 'all histories of 1-3 successful unifications whose operands are drawn from {$V1,$V2,$V3, a, symbolic int, f($V1), f($V2), [$V1], [a | $V2], []} '
              '(both operand orders, each step through the real unify, occurs-check histories dropped by the reference); after every step: chain walk, '
-             'get_ground_term / is_ground_variable / replace_variables on every variable under a 60k-statement step limit, and re-unification of every aliased pair in both orders; the 3-step alias histories are repeated with variable ids 64 and 128 apart (3/67/70, 1/65/129, 6/70/134)',
+             'get_ground_term / is_ground_variable / replace_variables on every variable under a 60k-statement step limit, and re-unification of every aliased pair in both orders; the 3-step alias histories are repeated with variable ids 64 and 128 apart (3/67/70, 1/65/129, 6/70/134); '
+             'programs t($A, $B, $C) :- BODY with BODY = all 2-goal and every 5th 3-goal conjunction over 15 goals that alias variables through rule heads (same($W, $W), facts holding a variable inside f(..) / a list, swap/3, rules that unify or call same/2 with swapped arguments, `=`): after every answer the chain walk on the answer\'s substitution set, the answer resolved under the step limit, and the answers compared with the reference',
     'thorough': 'histories of up to 4 steps over the same operand set plus $V4, f($V3), [$V3 | $V1]',
 }
 OUTSIDE = 'histories in which the reference unifier needs an occurs check; function terms'
@@ -24,6 +25,20 @@ ASSUMPTIONS = ['a history step on which the real unify fails ends the history (o
 
 OPS_Q = [['v', 1], ['v', 2], ['v', 3], ['a'], ['i'], ['f', ['v', 1]], ['f', ['v', 2]], ['l', 'p', [['v', 1]], None], ['l', 'p', [['a']], ['v', 2]], ['e']]
 OPS_T = OPS_Q + [['v', 4], ['f', ['v', 3]], ['l', 'p', [['v', 3]], ['v', 1]]]
+
+
+# programs that alias variables through rule heads (the second half of the quantifier)
+from .. import progs as P
+from .. import refsld as S
+from ..progs import V, A, C, L, I, gc, U as UNI, AND
+from . import prog_common as PC
+PA, PB, PC_, PW, PY, PZ = V('A'), V('B'), V('C'), V('W'), V('Y'), V('Z')
+PKB = [
+    (C('pf', C('f', PY)), None), (C('pl', L(PY, tail=PZ)), None), (C('same', PW, PW), None), (C('swap', PW, PY, C('k', PY, PW)), None),
+    (C('alias', PW, PY), UNI(PW, PY)), (C('via', PW, PY), gc('same', PY, PW)), (C('any', PW), None), (C('one', I(1)), None),
+]
+PMENU = [gc('pf', PA), gc('pf', PB), gc('pl', PA), gc('same', PA, PB), gc('same', PB, PA), gc('same', PB, PC_), gc('same', PC_, PA), gc('alias', PA, PB),
+         gc('alias', PC_, PB), gc('via', PA, PC_), gc('swap', PA, PB, PC_), gc('any', PB), gc('one', PC_), UNI(PA, PB), UNI(PC_, PA)]
 
 
 def steps(ops):
@@ -62,6 +77,11 @@ def cases(tier, seed):
             for s2 in vv:
                 for s3 in vv:
                     for s4 in v1: add([s1, s2, s3, s4])
+    bodies = [AND(g, h) for g in PMENU for h in PMENU if g != h]
+    three = [AND(g, h, k) for g in PMENU for h in PMENU for k in PMENU if g != h and h != k]
+    bodies += three[::5] if tier == 'quick' else three
+    for b in bodies:
+        out.append({'id': 'program t($A, $B, $C) :- %s|%d' % (P.gtext(b), len(out)), 'fam': 'prog', 'body': PC.jsonable(b)})
     return out
 
 
@@ -96,7 +116,42 @@ def after_step(drv, ss, vars_seen, desc):
     return tags
 
 
+def run_prog(drv, case):
+    m = drv.m
+    body = PC.untuple(case['body'])
+    clauses = PKB + [(C('t', PA, PB, PC_), body)]
+    query = C('t', PA, PB, PC_)
+    desc = case['id'].split('|')[0]
+    try:
+        ref = P.ref_search(m, clauses, query, 4)
+    except S.Outside:
+        return {'tags': ['occurs-check-outside-claim'], 'nontrivial': False}
+    kb = P.build_kb(drv, clauses)
+    q = drv.query([drv.term(t) for t in query[1]])
+    node = drv.base(q, kb)
+    run_ = P.Run(); run_.answers, run_.outs, run_.exhausted = [], [], False
+    try:
+        for i in range(5):
+            r = drv.next(node)
+            run_.outs.append(drv.outs[-1])
+            if r.h is None: run_.exhausted = True; break
+            cur = drv.dumpss(r)
+            cyc = R.impl_chain_ok(cur)
+            if cyc is not None:
+                raise Violation('program-cycle', '%s: after answer %d, following bindings from variable %d never ends (%s)' % (desc, i + 1, cyc, [R.show(e) if e else '-' for e in cur]))
+            try:
+                run_.answers.append(drv.answer(q, r))
+            except ScenarioEnd as e:
+                raise Violation('program-resolve-hangs', '%s: resolving answer %d does not terminate (%s)' % (desc, i + 1, e.why[0]))
+    except ScenarioEnd as e:
+        raise Violation('program-search-%s' % e.why[0], '%s: %s' % (desc, e.why[1][:200]))
+    problem = P.compare_runs(m, run_, ref, desc)
+    if problem is not None: raise Violation('program-' + problem[0], problem[1])
+    return {'tags': ['program'] + (['program-has-answers'] if run_.answers else []), 'note': desc}
+
+
 def run(drv, case):
+    if case.get('fam') == 'prog': return run_prog(drv, case)
     m = drv.m
     ss, sub, vars_seen = drv.ss0(), {}, {}
     tags = set()
